@@ -711,8 +711,9 @@ func cmdCheck(args []string) int {
 			"open_known_findings": len(knownHit),
 			"bounded_standins": cfg.Bounded,
 			"replay_cases_run": replayed,
+			"retried_undecided": retried,
 			"all_obligations": reports,
-			"explanation": fmt.Sprintf("weakest-precondition style VCs generated by govc from go/ssa of %s's working tree for %d functions under contract; each obligation raced on z3 4.8.12, z3 5.1.0, cvc5 1.0.3 (timeout %s)", *repo, len(cfg.Funcs), timeout),
+			"explanation": fmt.Sprintf("weakest-precondition style VCs generated by govc from go/ssa of %s's working tree for %d functions under contract; each obligation raced on z3 5.1.0, z3 4.8.12, cvc5 1.0.3 (first solver starts alone, the others join after 1.5 s; timeout %s; quick tier: up to 12 undecided cases are asked once more with three times the budget)", *repo, len(cfg.Funcs), timeout),
 		}
 		ev := map[string]interface{}{
 			"property_id": *prop, "tier": *tier, "seed": seed, "level": level, "coverage": cov, "assumptions": assumptions,
